@@ -88,7 +88,9 @@ fn rand_sample(rng: &mut Rng) -> f32 {
         0..=49 => rng.range(-64, 64) as f32 / 8.0,
         50..=79 => (rng.f64_unit() * 2.0 - 1.0) as f32,
         80..=89 => { let mut b = rng.next_u64() as u32; if (b >> 23) & 0xff == 0xff { b &= !(1 << 30); } f32::from_bits(b) } // any finite
-        90..=94 => if rng.chance(1, 2) { 0.0 } else { -0.0 },
+        90..=91 => if rng.chance(1, 2) { 0.0 } else { -0.0 },
+        // subnormals and the smallest normals, either sign (flush-to-zero / denormal handling must not differ)
+        92..=94 => { let m = match rng.below(3) { 0 => 1 + rng.below(0x007f_ffff) as u32, 1 => 0x0080_0000 + rng.below(16) as u32, _ => 1 + rng.below(8) as u32 }; f32::from_bits(m | if rng.chance(1, 2) { 0x8000_0000 } else { 0 }) }
         95..=97 => if rng.chance(1, 2) { 3.0e38 } else { -3.0e38 },
         _ => if rng.chance(1, 2) { f32::INFINITY } else { f32::NEG_INFINITY },
     }
@@ -141,6 +143,8 @@ macro_rules! run_stateless {
     }};
 }
 
+fn inputs_bucket(n: usize) -> String { if n <= 4 { format!("inputs_{}", n) } else if n <= 16 { "inputs_05_16".into() } else if n <= 32 { "inputs_17_32".into() } else if n <= 64 { "inputs_33_64".into() } else { "inputs_65_plus".into() } }
+
 fn inputs_of<'a>(c: &'a Case, order: &[usize], call: usize) -> Vec<&'a Vec<B>> { order.iter().map(|&s| &c.data[call][s]).collect() }
 
 // ---------------------------------------------------------------- oracles (plain readings of the property text)
@@ -158,8 +162,8 @@ fn oracle_pass(ins: &[&Vec<B>], prev: &[B]) -> Vec<B> {
     o
 }
 
-fn stateless_case(st: &mut Stream, rng: &mut Rng, kind: &str, wrapper: &str, in_bufs: &[usize], n_out: usize) {
-    let c = make_case(rng, in_bufs, n_out, 5);
+fn stateless_case(st: &mut Stream, rng: &mut Rng, kind: &str, wrapper: &str, in_bufs: &[usize], n_out: usize, ncalls: usize) {
+    let c = make_case(rng, in_bufs, n_out, ncalls);
     let obs = match kind {
         "sum" => run_stateless!(Sum, sum_fn, wrapper, &c),
         "sumbuffers" => run_stateless!(SumBuffers, sumbuffers_fn, wrapper, &c),
@@ -186,17 +190,19 @@ fn stateless_case(st: &mut Stream, rng: &mut Rng, kind: &str, wrapper: &str, in_
         }
     }
     let mismatch = in_bufs.iter().any(|&b| b != n_out) || in_bufs.is_empty();
-    st.count(&format!("kind_{}", kind)); st.count(&format!("wrapper_{}", wrapper)); st.count(&format!("inputs_{}", in_bufs.len()));
+    st.count(&format!("kind_{}", kind)); st.count(&format!("wrapper_{}", wrapper)); st.count(&inputs_bucket(in_bufs.len()));
     if mismatch { st.count("channel_counts_mismatch_or_no_input"); }
-    st.case(&op, &out.join(" "), kind != "sum" || mismatch, 5);
+    st.case(&op, &out.join(" "), kind != "sum" || mismatch, ncalls as u64);
 }
 
 // ---------------------------------------------------------------- delay
-fn delay_case(st: &mut Stream, rng: &mut Rng, wrapper: &str, in_bufs: &[usize], n_out: usize, n_rings: usize) {
-    let c = make_case(rng, in_bufs, n_out, 5);
+fn delay_case(st: &mut Stream, rng: &mut Rng, wrapper: &str, in_bufs: &[usize], n_out: usize, n_rings: usize, ncalls: usize, long_rings: bool) {
+    let c = make_case(rng, in_bufs, n_out, ncalls);
     let rings: Vec<(usize, Vec<f32>)> = (0..n_rings).map(|_| {
         let rl = 1 + rng.usize_below(300);
-        let len = *rng.pick(&[1usize, 2, 3, 7, 63, 64, 65, 100, 128, 129, 200, rl]);
+        // long rings: thousands of samples, but short enough that the input fed in the first calls comes out again
+        let ll = 1000 + rng.usize_below((ncalls * LEN).saturating_sub(1000).max(1));
+        let len = if long_rings { ll } else { *rng.pick(&[1usize, 2, 3, 7, 63, 64, 65, 100, 128, 129, 200, rl]) };
         let data: Vec<f32> = (0..len).map(|_| rand_sample(rng)).collect();
         (rng.usize_below(len), data)
     }).collect();
@@ -239,9 +245,10 @@ fn delay_case(st: &mut Stream, rng: &mut Rng, wrapper: &str, in_bufs: &[usize], 
             }
         }
     }
-    st.count("kind_delay"); st.count(&format!("wrapper_{}", wrapper)); st.count(&format!("rings_{}", n_rings));
+    st.count("kind_delay"); st.count(&format!("wrapper_{}", wrapper)); st.count(&format!("rings_{}", n_rings)); st.count(&format!("delay_{}", inputs_bucket(in_bufs.len())));
+    if long_rings { st.count("delay_long_rings_many_calls"); }
     for r in &rings { st.count(if r.1.len() < LEN { "ring_shorter_than_buffer" } else if r.1.len() == LEN { "ring_equal_buffer" } else { "ring_longer_than_buffer" }); }
-    st.case(&op, &out.join(" "), true, 5);
+    st.case(&op, &out.join(" "), true, ncalls as u64);
 }
 
 // ---------------------------------------------------------------- signal
@@ -389,16 +396,35 @@ fn run(a: &Args) {
         for n_out in 0..=3 {
             for kind in ["sum", "sumbuffers", "pass"] {
                 let w = STATELESS_WRAPPERS[ks % STATELESS_WRAPPERS.len()]; ks += 1;
-                stateless_case(&mut st, &mut rng, kind, w, in_bufs, n_out);
+                stateless_case(&mut st, &mut rng, kind, w, in_bufs, n_out, 5);
             }
             let w = ["plain", "mutref", "box", "boxednode", "boxednodesend", "dynfnmut"][k % 6]; k += 1;
             let n_rings = if in_bufs.len() <= 2 { k % 4 } else { rng.usize_below(4) };
-            delay_case(&mut st, &mut rng, w, in_bufs, n_out, n_rings);
+            delay_case(&mut st, &mut rng, w, in_bufs, n_out, n_rings, 5, false);
         }
     }
     // every wrapper x every stateless kind at least on one fixed shape, all rings counts x delay wrappers
-    for kind in ["sum", "sumbuffers", "pass"] { for w in STATELESS_WRAPPERS { stateless_case(&mut st, &mut rng, kind, w, &[2, 1, 3], 2); } }
-    for w in ["plain", "mutref", "box", "boxednode", "boxednodesend", "dynfnmut"] { for r in 0..=3 { delay_case(&mut st, &mut rng, w, &[2, 3], 3, r); } }
+    for kind in ["sum", "sumbuffers", "pass"] { for w in STATELESS_WRAPPERS { stateless_case(&mut st, &mut rng, kind, w, &[2, 1, 3], 2, 5); } }
+    for w in ["plain", "mutref", "box", "boxednode", "boxednodesend", "dynfnmut"] { for r in 0..=3 { delay_case(&mut st, &mut rng, w, &[2, 3], 3, r, 5, false); } }
+    // MANY INPUTS (fan-in far beyond the 0..4 of the enumeration; mixed channel counts) and LONG delay lines
+    let mut counts: Vec<usize> = vec![16, 17, 33, 64, 100];
+    if a.thorough() { counts.extend([5, 8, 15, 18, 31, 32, 34, 48, 63, 65, 96, 128, 150, 200]); for _ in 0..20 { counts.push(5 + rng.usize_below(196)); } }
+    for (i, &cnt) in counts.iter().enumerate() {
+        for kind in ["sum", "sumbuffers", "pass"] {
+            // mostly 1..3 buffers per input, now and then none
+            let in_bufs: Vec<usize> = (0..cnt).map(|_| if rng.chance(1, 8) { 0 } else { 1 + rng.usize_below(3) }).collect();
+            let w = STATELESS_WRAPPERS[ks % STATELESS_WRAPPERS.len()]; ks += 1;
+            stateless_case(&mut st, &mut rng, kind, w, &in_bufs, 1 + (i + ks) % 3, 2);
+        }
+        let in_bufs: Vec<usize> = (0..cnt).map(|_| 1 + rng.usize_below(3)).collect();
+        let w = ["plain", "mutref", "box", "boxednode", "boxednodesend", "dynfnmut"][k % 6]; k += 1;
+        delay_case(&mut st, &mut rng, w, &in_bufs, 1 + i % 3, 1 + i % 3, 2, false);
+    }
+    for i in 0..(if a.thorough() { 16 } else { 2 }) {
+        let w = ["plain", "mutref", "box", "boxednode", "boxednodesend", "dynfnmut"][i % 6];
+        let ncalls = if i % 2 == 0 { 40 } else { 90 };
+        delay_case(&mut st, &mut rng, w, &[2, 1], 2, 2, ncalls, true);
+    }
     let reps = if a.thorough() { 40 } else { 6 };
     for _ in 0..reps {
         for n_out in 0..=3 {
@@ -416,7 +442,7 @@ fn run(a: &Args) {
         let n_out = rng.usize_below(4);
         graph_case(&mut st, &mut rng, ["plain", "mutref", "box", "boxednode"][i % 4], &in_bufs, n_out);
     }
-    st.note(if a.thorough() { "every (buffers per input in 0..3) tuple for 0..4 inputs x 0..3 output buffers, for sum/sumbuffers/pass/delay; contents random" } else { "every (buffers per input in 0..3) tuple for 0..3 inputs x 0..3 output buffers plus 60 random 4-input tuples, for sum/sumbuffers/pass/delay; contents random" });
+    st.note(if a.thorough() { "every (buffers per input in 0..3) tuple for 0..4 inputs x 0..3 output buffers, for sum/sumbuffers/pass/delay; plus fan-in 5..200 and delay rings of 1000..5700 samples over 40/90 calls; contents random" } else { "every (buffers per input in 0..3) tuple for 0..3 inputs x 0..3 output buffers plus 60 random 4-input tuples, for sum/sumbuffers/pass/delay; plus fan-in 16/17/33/64/100 and two delay lines of 1000+ samples over 40/90 calls; contents random" });
     st.exhaustive = false;
     st.finish();
 }
